@@ -181,10 +181,32 @@ func (t *TargetsManager) doCallbacks() error {
 
 func (t *TargetsManager) saveTargets() error {
 	data, _ := json.Marshal(&t.targets)
-	if err := ioutil.WriteFile(t.storePath(), data, 0755); err != nil {
+	// never truncate the store in place: a crash or a failing write would leave an empty or
+	// partial file, which the next start can not load
+	tmp, err := ioutil.TempFile(t.storeDir, storeFileName+".tmp")
+	if err != nil {
 		return err
 	}
-	return nil
+	defer func() { _ = os.Remove(tmp.Name()) }()
+
+	if _, err := tmp.Write(data); err != nil {
+		_ = tmp.Close()
+		return err
+	}
+
+	if err := tmp.Sync(); err != nil {
+		_ = tmp.Close()
+		return err
+	}
+
+	if err := tmp.Close(); err != nil {
+		return err
+	}
+
+	if err := os.Chmod(tmp.Name(), 0755); err != nil {
+		return err
+	}
+	return os.Rename(tmp.Name(), t.storePath())
 }
 
 func (t *TargetsManager) storePath() string {
